@@ -25,8 +25,10 @@ Definition r_iters (r : res) : list nat := match r with Res _ i => i end.
 Inductive case :=
   (* n points; configuration: r2 (cost is Metrics.r2), threshold t, rdp_fixed length k, min_points m, threshold list ts of
      min_point_rdp; dflt = the configuration is min_point_rdp's hard-wired one (shortest / smape / segment), so the
-     tables apply to it.  dt / ct / pt / gt: distance, segment cost, order priority and global cost primitives. *)
-  | CAll (n : nat) (r2 : bool) (t : float) (k m : nat) (ts : list float) (dflt : bool)
+     tables apply to it.  kmax: the fixed-size family's oracle tables cover the chain members S_2 .. S_kmax (kmax = n for small
+     curves; on the large-n stratum the parameters are chosen so that no simplifier goes beyond S_kmax — if one does, the
+     model reports a missing entry, code 4).  dt / ct / pt / gt: distance, segment cost, order priority and global cost primitives. *)
+  | CAll (n : nat) (r2 : bool) (t : float) (k m kmax : nat) (ts : list float) (dflt : bool)
          (dt : dtab) (ct : ctab) (pt : ctab) (gt : gtab)
          (r_rdp r_fixed r_grdp r_mp r_min : res).
 
@@ -40,7 +42,7 @@ Definition red_of (o : out_t) : list nat := match o with Some (r, _) => r | None
 Definition sum_nat (l : list nat) : nat := fold_right Nat.add 0 l.
 
 Section Models.
-  Variables (n : nat) (r2 : bool) (t : float) (dt : dtab) (ct : ctab) (pt : ctab) (gt : gtab).
+  Variables (n kmax : nat) (r2 : bool) (t : float) (dt : dtab) (ct : ctab) (pt : ctab) (gt : gtab).
   Definition m_rdp := @rdp FloatNum (dist_of dt) (cost_from ct) r2 t n.
   Definition m_fixed (k : nat) : out_t := @rdp_fixed FloatNum n f_eps (dist_of dt) (cost_from pt) n k.
   Definition m_grdp : out_t := @grdp FloatNum n f_eps (dist_of dt) (cost_from pt) (gcost_of gt) r2 t n.
@@ -59,7 +61,9 @@ Section Models.
     end.
   (* the fixed-size family walks down the chain S_2, S_3, ...: every wide segment of every member needs a distance
      entry and (unless it is the root) a priority entry; every member needs its global cost *)
-  Definition chain_sets : list (list nat) := map (fun k => red_of (m_fixed k)) (seq 2 (n - 1)).
+  Definition chain_sets : list (list nat) := map (fun k => red_of (m_fixed k)) (seq 2 (Nat.min kmax n - 1)).
+  (* every model output of the fixed-size family is a chain member within the table's range *)
+  Definition within_chain (o : out_t) : bool := existsb (nat_list_eqb (red_of o)) chain_sets.
   Definition fixed_keys_ok (need_g : bool) : bool :=
     forallb (fun S =>
       (negb need_g || ghas gt S) &&
@@ -80,16 +84,21 @@ Fixpoint first_nonzero (l : list (nat * nat)) : nat :=
    agree: 0 every simplifier: model output (and iteration count) = implementation's; 1 differs; 4 oracle entry missing;
           5 a priority is NaN (Python's sort on NaN keys is not modelled: fixed family judged on the predicate only)
    holds: C01_code of rdp (1-5), rdp_fixed (11-15), grdp (21-25), mp_grdp (31-35), min_point_rdp (41-45):
-          x1 did not return, x2 not well-formed, x3 removed table, x4 retained + dropped <> n, x5 iteration bound *)
+          x1 did not return a pair of non-negative integer arrays (raised / timed out / negative or non-integral entries),
+          x2 not well-formed, x3 removed table, x4 retained + dropped <> n, x5 iteration bound *)
 Definition judge (c : case) : Z :=
   match c with
-  | CAll n r2 t k m ts dflt dt ct pt gt r_rdp r_fixed r_grdp r_mp r_min =>
+  | CAll n r2 t k m kmax ts dflt dt ct pt gt r_rdp r_fixed r_grdp r_mp r_min =>
       let dom := (2 <=? n) && negb (@Rdp.curved FloatNum r2 t (@trivial_cost FloatNum r2)) && negb (f_isnan t)
                  && forallb (fun x => negb (f_isnan x)) ts && shape_ok dt in
       if negb dom then 600%Z else
       let ordered := forallb (fun e => negb (f_isnan (snd e))) pt in
       let a_fixed :=
-        if negb (fixed_keys_ok n dt pt gt true) then [4%Z]
+        if negb (fixed_keys_ok n kmax dt pt gt true
+                 && within_chain n kmax dt pt (m_fixed n dt pt k)
+                 && within_chain n kmax dt pt (m_grdp n r2 t dt pt gt)
+                 && within_chain n kmax dt pt (m_mp n r2 t dt pt gt m)
+                 && (negb dflt || within_chain n kmax dt pt (m_min n dt pt gt ts m))) then [4%Z]
         else if negb ordered then [5%Z]
         else [agree_out (m_fixed n dt pt k) r_fixed true;
               agree_out (m_grdp n r2 t dt pt gt) r_grdp true;
@@ -108,7 +117,7 @@ Definition judge (c : case) : Z :=
 (* the models' own outputs, for replay files *)
 Definition show (c : case) :=
   match c with
-  | CAll n r2 t k m ts dflt dt ct pt gt _ _ _ _ _ =>
+  | CAll n r2 t k m kmax ts dflt dt ct pt gt _ _ _ _ _ =>
       (m_rdp n r2 t dt ct, m_fixed n dt pt k, m_grdp n r2 t dt pt gt, m_mp n r2 t dt pt gt m,
        if dflt then m_min n dt pt gt ts m else None)
   end.
